@@ -84,6 +84,7 @@ class Gen:
         self.looping = False
         self.pay = 0
         self.fd_dead = set()
+        self.fd_owner = {}    # a descriptor can be polled once per context: each one is used by a single module
 
     def w(self, s):
         self.lines.append(s)
@@ -195,10 +196,10 @@ class Gen:
             m = self.pick()
             if not m: return
             c = r.random()
-            mi = self.h.index(m) if m in self.h else 0
-            ok = [k for k in range(6) if k not in self.fd_dead and (k % 3 == mi % 3 or self.r.random() < 0.05)]
+            ok = [k for k in range(6) if k not in self.fd_dead and self.fd_owner.get(k, m['tok']) == m['tok']]
             if not ok: return
             k = r.choice(ok)
+            if c < 0.65: self.fd_owner[k] = m['tok']
             if c < 0.45:
                 fl = ''.join(f for f, p in (('o', .25), ('a', .15), ('h', .2), ('l', .05)) if r.random() < p) or '-'
                 if 'a' in fl: self.fd_dead.add(k)
